@@ -205,11 +205,18 @@ pub fn frame_payload_damage(p: &Parsed, frame: usize, variant: u8, rng: &mut Rng
 pub fn frame_header_damage(p: &Parsed, frame: usize, variant: u8, rng: &mut Rng) -> Option<DamageOp> {
     let fr = p.frames.get(frame)?;
     let file = fr.file;
-    Some(match variant % 4 {
+    Some(match variant % 6 {
         0 => DamageOp::Flip { file, off: fr.off + 4 + rng.usize_below(2), bit: rng.below(8) as u8 },
         1 => DamageOp::Flip { file, off: fr.off + 6, bit: rng.below(3) as u8 },
         2 => DamageOp::Garbage { file, off: fr.off, len: HDR, seed: rng.next_u64() },
-        _ => DamageOp::Zero { file, off: fr.off, len: HDR },
+        3 => DamageOp::Zero { file, off: fr.off, len: HDR },
+        // the type byte rewritten to another *valid* frame type (First <-> Full, Middle <-> Last, ...)
+        4 => {
+            let other: Vec<u8> = (1u8..=4).filter(|t| *t != fr.ftype).collect();
+            DamageOp::Bytes { file, off: fr.off + 6, data: vec![*rng.pick(&other)] }
+        }
+        // an invalid frame type
+        _ => DamageOp::Bytes { file, off: fr.off + 6, data: vec![*rng.pick(&[0u8, 5, 9, 0x80, 0xFF])] },
     })
 }
 
@@ -491,7 +498,7 @@ pub fn base_image(case: &Case) -> Option<(Driver, Image, Parsed)> {
 /// Entry hit by a damage op (by byte range), if it is confined to one frame.
 pub fn entry_hit<'a>(p: &'a Parsed, op: &DamageOp) -> Option<&'a EntryKind> {
     let (file, off) = match op {
-        DamageOp::Flip { file, off, .. } | DamageOp::Garbage { file, off, .. } | DamageOp::Zero { file, off, .. } => (*file, *off),
+        DamageOp::Flip { file, off, .. } | DamageOp::Garbage { file, off, .. } | DamageOp::Zero { file, off, .. } | DamageOp::Bytes { file, off, .. } => (*file, *off),
         _ => return None,
     };
     let fr = p.frames.iter().find(|f| f.file == file && off >= f.off && off < f.off + HDR + f.len)?;
@@ -532,4 +539,46 @@ pub fn c16_on_recovered(w: &mut crate::world::World, obs: &Obs) -> Option<String
         return Some(format!("recovered log: used {} > allocated {}", ru.memory_used_bytes, ru.memory_allocated_bytes));
     }
     None
+}
+
+/// Structured damage inside one frame's payload: the same alteration repeated at a power-of-two distance
+/// (identical bit flips, equal-length zero fills). A checksum that is linear over independently summed
+/// lanes / words does not see such pairs.
+pub fn correlated_damage(p: &Parsed, rng: &mut Rng) -> Vec<DamageOp> {
+    let big: Vec<&crate::walparse::Frame> = p.frames.iter().filter(|f| f.len >= 64).collect();
+    if big.is_empty() {
+        return Vec::new();
+    }
+    let fr = *rng.pick(&big);
+    let mut dists: Vec<usize> = vec![1, 2, 4, 8, 16, 64, 256, 512, 1024, 2048, 4096, 8192, 16384];
+    dists.retain(|d| *d < fr.len);
+    let dist = *rng.pick(&dists);
+    let base = fr.off + HDR + rng.usize_below(fr.len - dist);
+    let file = fr.file;
+    match rng.below(3) {
+        0 => {
+            let bit = rng.below(8) as u8;
+            let mut v = vec![DamageOp::Flip { file, off: base, bit }, DamageOp::Flip { file, off: base + dist, bit }];
+            if rng.chance(1, 3) && base + 2 * dist < fr.off + HDR + fr.len {
+                v.push(DamageOp::Flip { file, off: base + 2 * dist, bit });
+                v.push(DamageOp::Flip { file, off: base + 2 * dist + 1, bit });
+                v.push(DamageOp::Flip { file, off: base + 1, bit });
+            }
+            v
+        }
+        1 => {
+            // whole-lane zero fill (k x dist bytes)
+            let k = 1 + rng.usize_below(3);
+            let len = (k * dist).min(fr.off + HDR + fr.len - base);
+            vec![DamageOp::Zero { file, off: base, len }]
+        }
+        _ => {
+            let seed = rng.next_u64();
+            let len = 1 + rng.usize_below(dist.min(16));
+            // the same garbage XORed... approximated by the same bytes written at both places
+            let mut g = Rng::new(seed);
+            let data: Vec<u8> = (0..len).map(|_| g.next_u64() as u8).collect();
+            vec![DamageOp::Bytes { file, off: base, data: data.clone() }, DamageOp::Bytes { file, off: base + dist, data }]
+        }
+    }
 }
